@@ -179,6 +179,13 @@ class Tracer(SymEval):
                         self.events.append(Event("<assign>", [self.eval(e["l"], env), r], self.loops, self.guards,
                                                  e.get("sp"), e))
                     continue
+                from .symx import is_assert, _panics
+                if is_assert(e):
+                    self.asserts.append((e, list(self.loops), list(self.guards)))
+                    continue
+                if _panics(e):
+                    self.events.append(Event("<panic>", [], self.loops, self.guards, e.get("sp"), e))
+                    return ("panic",)
                 self.eval(e, env)
         if n.get("e") is not None:
             return self.eval(n["e"], env)
